@@ -67,10 +67,8 @@ def gen_val(rng: random.Random, name: str):
         return ["i", rng.choice([0, 1, 2, 3, 5, 10, 42, -7])]
     if r < 0.75:
         return ["s", rng.choice(["s", "t", "ab"])]
-    if r < 0.95:
-        keys = rng.sample(["a", "b", "c", "k", "x", "q"], rng.randint(0, 3))
-        return ["m", [[k, rng.randint(1, 9)] for k in keys]]
-    return ["b", rng.random() < 0.5]
+    keys = rng.sample(["a", "b", "c", "k", "x", "q"], rng.randint(0, 3))
+    return ["m", [[k, rng.randint(1, 9)] for k in keys]]
 
 
 def gen_bindings(rng: random.Random):
@@ -92,62 +90,161 @@ def gen_decls(rng: random.Random):
     return [[nm, rng.choice(ANNS)] for nm in names]
 
 
-def gen_history(rng: random.Random, max_len: int = 40):
-    ops: List[Any] = []
-    envs: List[str] = []          # kinds
-    asts: List[int] = []          # env index that compiled it
-    progs: List[int] = []         # env index
-    evaluated: List[Any] = []     # (prog, bindings)
-    length = rng.randint(6, max_len)
-    first_kind = rng.choice("IC")
-    while len(ops) < length:
+CLUSTERS = [["a.b", "a.c", "x"], ["a.b.c", "a.b", "x"], ["p.a", "a", "p.q.a"], ["x", "y", "a.b"], ["b.c", "b", "a.b.d"],
+            ["p.x", "x", "p.q.x"], ["q.a", "a", "p.q.a"], ["a.b", "a", "x"], ["p.q.a", "p.q.x", "y"]]
+RAW_T = ["[1, 2].map(i, i + {0})", "has({0})", "{1} > 0 ? {0} : {1}", "{0} == 1 && {1} == 10", "[{0}, {1}].exists(v, v == {0})",
+         "{1} == 1 || {0} == 2", "has({0}) ? {0} : {1}", "type({0})", "size([{1}]) + {0}", "string({0}) + string({1})"]
+
+
+def path_expr(name: str):
+    segs = [s for s in name.split(".") if s]
+    e = ["id", segs[0]]
+    for k in segs[1:]:
+        e = ["dot", e, k]
+    return e
+
+
+def gen_family(rng: random.Random):
+    """a small coherent universe: environments, expressions and binding sets over one cluster of related names;
+    the histories of a family differ in which operations happen and in which order"""
+    names = list(rng.choice(CLUSTERS))
+    if rng.random() < 0.4:
+        names.append(rng.choice(DECL_NAMES))
+    pk = [None, None, ""] + [n.rsplit(".", 1)[0] for n in names if "." in n] + (["p.q.r"] if rng.random() < 0.1 else [])
+    envs = []
+    for i in range(2 if rng.random() < 0.7 else 3):
+        kind = "C" if i == 0 and rng.random() < 0.7 else rng.choice("IC")
+        decls = [[n, rng.choice(ANNS)] for n in names if rng.random() < 0.6]
+        rng.shuffle(decls)
+        if rng.random() < 0.04:
+            decls.insert(rng.randrange(len(decls) + 1), [rng.choice(BAD_NAMES[:4]), "IntType"])
+        envs.append([kind, rng.choice(pk), decls])
+    if rng.random() < 0.5:                  # the same declarations under the other runner class
+        k, p, d = envs[0]
+        envs[-1] = ["I" if k == "C" else "C", p, d]
+    exprs = []
+    for _ in range(3):
         r = rng.random()
-        if not envs or (r < 0.10 and len(envs) < 4):
-            kind = first_kind if not envs else rng.choice("IC")
-            op = ["E", kind, rng.choice(PKGS), gen_decls(rng)]
-            if envs and rng.random() < 0.15:
-                j = rng.randrange(len(envs))
-                op = ["E", kind, rng.choice(PKGS), ops[[i for i, o in enumerate(ops) if o[0] == "E"][j]][3], j]
+        if r < 0.3:
+            exprs.append(path_expr(rng.choice(names)))
+        elif r < 0.6:
+            exprs.append(["add", path_expr(rng.choice(names)), path_expr(rng.choice(names))])
+        elif r < 0.7:
+            n = rng.choice(names)
+            exprs.append(["id", n.split(".")[0]] if rng.random() < 0.6 else ["did", n.split(".")[-1]])
+        elif r < 0.8:
+            exprs.append(gen_expr(rng, 2))
+        else:
+            a, b = rng.choice(names), rng.choice(names)
+            exprs.append({"src": rng.choice(RAW_T).format(a.lstrip("."), b.lstrip("."))})
+    binds = []
+    pool = names + [n.split(".")[0] for n in names if "." in n] + [n.split(".", 1)[1] for n in names if "." in n]
+    for i in range(4):
+        r = rng.random()
+        if r < 0.12:
+            binds.append([])
+            continue
+        if i == 0:
+            chosen = list(names)
+        else:
+            chosen = [n for n in pool if rng.random() < 0.4] or [rng.choice(pool)]
+        chosen = list(dict.fromkeys(chosen))
+        rng.shuffle(chosen)
+        if rng.random() < 0.03:
+            chosen.append(rng.choice(BAD_NAMES))
+        if rng.random() < 0.05:
+            chosen.append("." + rng.choice(names))
+        b = []
+        for n in chosen:
+            v = gen_val(rng, n)
+            if "." in n and rng.random() < 0.8:
+                v = ["i", rng.choice([1, 2, 3, 5, 10, 42])]
+            b.append([n, v])
+        binds.append(b)
+    progs = []
+    for _ in range(4):
+        progs.append((rng.randrange(len(envs)), rng.randrange(len(exprs))))
+    return {"envs": envs, "exprs": exprs, "binds": binds, "progs": progs}
+
+
+def gen_history(rng: random.Random, fam=None, max_len: int = 40):
+    fam = fam or gen_family(rng)
+    ops: List[Any] = []
+    env_of: Dict[int, int] = {}      # family env index -> history env index
+    kinds: List[str] = []
+    asts: Dict[Any, int] = {}        # (hist env, expr index) -> ast index
+    ast_env: List[int] = []
+    progs: Dict[Any, int] = {}       # (hist env, ast) -> prog index
+    nprogs = 0
+    evaluated: List[Any] = []
+    length = rng.randint(8, max_len)
+    plan = list(fam["progs"])
+    rng.shuffle(plan)
+
+    def need_env(fe):
+        if fe not in env_of:
+            k, p, d = fam["envs"][fe]
+            op = ["E", k, p, d]
+            same = [j for j, o in enumerate([o for o in ops if o[0] == "E"]) if o[3] == d]
+            if same and rng.random() < 0.3:
+                op.append(same[0])           # hand the very same annotations dict object to this Environment too
             ops.append(op)
-            envs.append(kind)
-        elif r < 0.13:
+            env_of[fe] = len(kinds)
+            kinds.append(k)
+        return env_of[fe]
+
+    if rng.random() < 0.5:                   # create all environments up front, in random order
+        order = list(range(len(fam["envs"])))
+        rng.shuffle(order)
+        for fe in order:
+            need_env(fe)
+    guard = 0
+    while len(ops) < length and guard < 400:
+        guard += 1
+        r = rng.random()
+        if r < 0.03:
             ops.append(["R"])
-        elif not asts or r < 0.28:
-            e = rng.randrange(len(envs))
-            rr = rng.random()
-            if rr < 0.04:
-                ops.append(["P", e, None])
-                continue
-            x = {"src": rng.choice(RAW)} if rr < 0.22 else gen_expr(rng, rng.randint(0, 2))
-            ops.append(["P", e, x])
-            asts.append(e)
-        elif not progs or r < 0.42:
-            a = rng.randrange(len(asts))
-            rr = rng.random()
-            if rr < 0.75:
-                e = asts[a]
-            elif rr < 0.93:
-                same = [i for i, k in enumerate(envs) if k == envs[asts[a]]]
-                e = rng.choice(same)
-            else:
-                e = rng.randrange(len(envs))
+        elif r < 0.06:
+            need_env(rng.randrange(len(fam["envs"])))
+        elif r < 0.09 and kinds:
+            ops.append(["P", rng.randrange(len(kinds)), None])
+        elif r < 0.30 or not progs:
+            fe, xi = plan[rng.randrange(len(plan))]
+            e = need_env(fe)
+            ce = e
+            if rng.random() < 0.12:          # compile in another environment (same or other runner class)
+                ce = rng.randrange(len(kinds))
+            if (ce, xi) not in asts or rng.random() < 0.2:
+                ops.append(["P", ce, fam["exprs"][xi]])
+                asts[(ce, xi)] = len(ast_env)
+                ast_env.append(ce)
+            a = asts[(ce, xi)]
             ops.append(["G", e, a])
-            # a compiled environment cannot build a program from an lark.Tree AST (AttributeError): no program then
-            if not (envs[e] == "C" and envs[asts[a]] == "I"):
-                progs.append(e)
+            if not (kinds[e] == "C" and kinds[ast_env[a]] == "I"):
+                progs[(e, a, nprogs)] = nprogs
+                nprogs += 1
         else:
             rr = rng.random()
             if evaluated and rr < 0.15:
-                p, b = rng.choice(evaluated)            # the same evaluation again
-            elif evaluated and rr < 0.6:
-                p = rng.choice(evaluated)[0]            # the same program, other bindings
-                b = gen_bindings(rng)
+                p, bi = rng.choice(evaluated)
+            elif evaluated and rr < 0.65:
+                p = rng.choice(evaluated)[0]
+                bi = rng.randrange(len(fam["binds"]))
             else:
-                p = rng.randrange(len(progs))
-                b = gen_bindings(rng)
-            ops.append(["V", p, b])
-            evaluated.append((p, b))
-    return ops
+                p = rng.randrange(nprogs)
+                bi = rng.randrange(len(fam["binds"]))
+            ops.append(["V", p, fam["binds"][bi]])
+            evaluated.append((p, bi))
+    return ops[:max(length, 1)] if len(ops) <= max_len else ops[:max_len]
+
+
+def gen_cases(rng: random.Random, families: int, per_family: int):
+    cases = []
+    for _ in range(families):
+        fam = gen_family(rng)
+        for _ in range(per_family):
+            cases.append({"kind": "hist", "ops": gen_history(rng, fam, 40 if rng.random() < 0.6 else 18)})
+    return cases
 
 
 # ------------------------------------------------------------------------------------------------
@@ -188,7 +285,10 @@ def index_history(ops, obs_model: Optional[List[str]] = None):
 
 def alone_ops(spec, bindings):
     """the same evaluation performed alone: one environment, one compile, one program, one evaluate"""
-    ops = [["E", spec["kind"], spec["pkg"], spec["decls"]], ["P", 0, spec["expr"]], ["G", 0, 0]]
+    if spec["ast_kind"] == spec["kind"]:
+        ops = [["E", spec["kind"], spec["pkg"], spec["decls"]], ["P", 0, spec["expr"]], ["G", 0, 0]]
+    else:   # the tree was built by an environment of the other runner class: that environment is part of the evaluation
+        ops = [["E", spec["ast_kind"], None, []], ["E", spec["kind"], spec["pkg"], spec["decls"]], ["P", 0, spec["expr"]], ["G", 1, 0]]
     if bindings is not None:
         ops.append(["V", 0, bindings])
     return ops
@@ -393,8 +493,7 @@ class C05(Prop):
     # ---- generation ------------------------------------------------------------------------------
     def generate(self, rng, tier):
         self._tier = tier
-        n = 110 if tier == "quick" else 2600
-        cases = [{"kind": "hist", "ops": gen_history(rng, 40 if rng.random() < 0.5 else 16)} for _ in range(n)]
+        cases = gen_cases(rng, 6, 8) if tier == "quick" else gen_cases(rng, 90, 12)
         budget = 240 if tier == "quick" else 1500
         self.prefetch(cases, budget)
         return cases
@@ -403,7 +502,7 @@ class C05(Prop):
         # the core collects up to 2000 cases before it looks at its deadline: keep our own
         deadline = time.time() + (75 if self._tier == "quick" else 420)
         while time.time() < deadline:
-            chunk = [{"kind": "hist", "ops": gen_history(rng, 40)} for _ in range(60)]
+            chunk = gen_cases(rng, 3, 8)
             self.prefetch(chunk, 300)
             for c in chunk:
                 yield c
@@ -461,7 +560,7 @@ class C05(Prop):
             from ..translate import gen_c05_c16
             cfg = gen_c05_c16.read_config()
             return ("d" if cfg["clone"] == "deep" else "s") + ("c" if cfg["parser"] == "perClass" else "s") + \
-                   ("p" if cfg["ns"] == "perCall" else "s")
+                   ("p" if cfg["ns"] == "perCall" else "s") + ("t" if cfg.get("skipTE", True) else "r")
         except Exception:
             return "dcp"
 
@@ -489,8 +588,6 @@ class C05(Prop):
                 continue
             if al is None:
                 continue
-            if spec["ast_kind"] != spec["kind"]:
-                continue   # a tree of the other runner's class: the alone run cannot reproduce it with one environment
             if al[1] != obs[i][1]:
                 what = "program construction" if op[0] == "G" else f"evaluate({op[2]!r})"
                 from .c05_worker import expr_text
